@@ -60,17 +60,18 @@ int SimulateTms1000::set_reg(const char *reg_string, uint32_t value)
 {
   if (strcasecmp(reg_string, "a") == 0)
   {
-    reg_a = value;
+    reg_a = value & 0xf;
   }
     else
   if (strcasecmp(reg_string, "x") == 0)
   {
-    reg_x = value;
+    // X selects one of the 4 RAM files, Y one of 16 nibbles: ram[x << 4 | y].
+    reg_x = value & 0x3;
   }
     else
   if (strcasecmp(reg_string, "y") == 0)
   {
-    reg_y = value;
+    reg_y = value & 0xf;
   }
     else
   if (strcasecmp(reg_string, "r") == 0)
